@@ -67,6 +67,19 @@ def campaign(tier, seed):
         maxops = 3 if tier == "quick" else 4
         res = {"camps": {}, "records": [], "states": 0, "transitions": 0, "traces": 0, "events": 0,
                "samples": [], "mc": {}}
+        # design level: the Impl-shaped transcription of the re-indexing algorithm (Reorg.tla) meets its Ideal on
+        # every item vector up to MaxN; ModuleTrace then checks that the real encoder agrees with the transcription
+        rcfg = st.path("MC_Reorg.cfg")
+        maxn = 5 if tier == "quick" else 6
+        open(rcfg, "w").write("SPECIFICATION Spec\nCONSTANT MaxN = %d\nINVARIANTS NowOk MappingOk Idem\nCHECK_DEADLOCK FALSE\n" % maxn)
+        rout = st.path("reorg.out")
+        rg = run_tlc("MC_Reorg", rcfg, rout, workers=8, timeout=3000)
+        if not rg["ok"]:
+            raise ToolError("MC_Reorg: the transcribed re-indexing violates its Ideal or did not complete: %s" % rg["error"])
+        os.remove(rout)
+        res["states"] += rg["distinct"]
+        res["transitions"] += rg["generated"]
+        drift, predicted = 0, 0
         for camp in ("f", "g", "m"):
             cfg = st.path("MC_Module_%s.cfg" % camp)
             open(cfg, "w").write(
@@ -97,6 +110,7 @@ def campaign(tier, seed):
             if not tv["ok"] or tv["distinct"] != hstat["events"] + 1:
                 raise ToolError("trace validation did not consume all events (camp %s): %s / %s vs %s"
                                 % (camp, tv["error"], tv["distinct"], hstat["events"]))
+            drift += sum(1 for _ in tagged(tv_out, "SPEC-DRIFT"))
             recs = [flat(v, camp) for v in tagged(tv_out, "VERDICT")]
             # dedup (TLC may evaluate an action twice)
             seen = set()
@@ -108,7 +122,9 @@ def campaign(tier, seed):
             os.remove(tv_out)
             res["mc"][camp] = {"distinct": mc["distinct"], "generated": mc["generated"], "histories": n,
                                "maxops": maxops}
-            res["detail"] = {"model_checking": res["mc"], "events_validated": 0}
+            res["detail"] = {"model_checking": res["mc"], "events_validated": 0,
+                             "reorg_model": {"MaxN": maxn, "vectors": rg["distinct"], "invariants": ["NowOk", "MappingOk", "Idem"],
+                                             "drift_vs_real_encoder": drift}}
             res["states"] += mc["distinct"] + tv["distinct"]
             res["transitions"] += mc["generated"] + tv["generated"]
             res["traces"] += hstat["traces"]
@@ -119,6 +135,9 @@ def campaign(tier, seed):
                         res["samples"].append(json.loads(l))
         res["wall_s"] = round(time.time() - t0, 1)
         res["detail"]["events_validated"] = res["events"]
+        res["detail"]["reorg_model"]["drift_vs_real_encoder"] = drift
+        if drift:
+            print("SPEC-DRIFT: %d encodes whose index-space order differs from the transcribed re-indexing (Reorg.tla)" % drift)
         st.store(res)
         return res
 
